@@ -301,6 +301,7 @@ inline int harnessMain(int argc, char** argv, const Harness& H) {
   if (!scratchPath.empty() && part->scratch) g_scratchFd = open(scratchPath.c_str(), O_CREAT | O_WRONLY | O_TRUNC, 0644);
 
   auto t0 = std::chrono::steady_clock::now();
+  auto tFail = t0;
   bool failed = false;
   Case failCase;
   std::string failWhy;
@@ -325,9 +326,12 @@ inline int harnessMain(int argc, char** argv, const Harness& H) {
       c.part = part->name;
       std::string rendered;
       if (g_scratchFd >= 0) { rendered = js::dump(caseToJson(c)); writeScratch(rendered); }
+      // bound the shrink phase: 20 s after the first failure further candidates are not evaluated any more
+      if (failed && std::chrono::duration<double>(std::chrono::steady_clock::now() - tFail).count() > 20.0) return;
       Verdict vd = part->judge(c);
       if (!failed) account(c, vd, rendered);
       if (!vd.ok) {
+        if (!failed) tFail = std::chrono::steady_clock::now();
         failed = true;
         ST.frozen = true;
         failCase = c;
